@@ -87,7 +87,15 @@ def gen(rng: random.Random, k: int, tier: str) -> dict:
         if len(t) > 1:
             look.append({"op": "lookup", "key": _enc_key(tuple(t[:-1]))})
         look.append({"op": "lookup", "key": _enc_key(str(tuple(t)))})
-    look += [{"op": "lookup", "key": _enc_key(v)} for v in (0, None, "", ())]
+    for n in names:
+        for cand in (n.upper(), n.lower(), n[:-1], n + "_", " " + n, repr(n)):
+            if cand and cand not in names:
+                look.append({"op": "lookup", "key": _enc_key(cand)})
+    for t in tuples:
+        for cand in (list(reversed(t)), sorted(t, key=str), [str(x) for x in t], t[:1] * len(t)):
+            if not any(G._eq_tuple(list(cand), u) for u in tuples):
+                look.append({"op": "lookup", "key": _enc_key(tuple(cand))})
+    look += [{"op": "lookup", "key": _enc_key(v)} for v in (0, 1, -1, None, "", (), 0.0)]
     rng.shuffle(look)
     ops += look
     ops.append({"op": "iterlen"})
@@ -98,7 +106,7 @@ def gen(rng: random.Random, k: int, tier: str) -> dict:
     # --- fault enumeration over the workspace document ---------------------
     blocks = []
     for path, v in G.leaves(ws):
-        b = [{"op": "flip_leaf", "path": list(path), "variant": rng.randrange(3)}, {"op": "verify", "as": "dict"}]
+        b = [{"op": "flip_leaf", "path": list(path), "variant": rng.randrange(4)}, {"op": "verify", "as": "dict"}]
         if rng.random() < 0.12:
             b.append({"op": "apply", "key": _enc_key(rng.choice(names)), "as": "dict"})
         if rng.random() < 0.1:
@@ -110,7 +118,7 @@ def gen(rng: random.Random, k: int, tier: str) -> dict:
         blocks.append(b)
     objs = list(G.objects(ws))
     for path in rng.sample(objs, min(len(objs), 6)):
-        blocks.append([{"op": "add_key", "path": list(path), "key": rng.choice(["extra", "name", "zz"])},
+        blocks.append([{"op": "add_key", "path": list(path), "key": rng.choice(["extra", "name", "zz"]), "value": rng.choice([1, None, "", [], {}, False, 0])},
                        {"op": "verify", "as": "dict"}, {"op": "restore"}])
     lv = list(G.leaves(ws))
     for path, _ in rng.sample(lv, min(len(lv), 6)):
@@ -296,7 +304,7 @@ class World:
                 cur = cur[p]
             if not isinstance(cur, dict) or op["key"] in cur:
                 return "noop"
-            cur[op["key"]] = 1
+            cur[op["key"]] = op.get("value", 1)
         except (KeyError, IndexError, TypeError):
             return "noop"
         self.ws_text = json.dumps(doc)
